@@ -384,7 +384,7 @@ PROPS = {
 # sentences added to the level texts as the drivers grew (rounds 4 and 5 of the seeded changes, DESIGN 10.5)
 LEVEL_TEXT_ADDENDA = {
     "C06": "; the complete Reader's read() against read_as::<S, Record>(), also with an unparsable extra row; also on files whose header length is stale (0 / 50 words) while the index lists the records",
-    "C11": "; every crash state is also read by path, with the same outcome; a crash right after a by-path open over an older valid shapefile",
+    "C11": "; workloads on destinations an earlier writer had filled with records of the same sizes (cuts at operation boundaries, read without the index); every crash state is also read by path, with the same outcome; a crash right after a by-path open over an older valid shapefile",
     "C13": "; every failing read is repeated under six other io::ErrorKind values; files holding null-shape records",
     "C20": "; GeometryCollections of every make-up (empty, polygons only, mixed, nested) must be refused",
     "C12": "; every failing write also as a full destination (Ok(0)); exports of 1 030 and 4 100 records on destinations whose every flush fails (validated at the level of counts); UNBOUNDED: TLAPS proves (spec/proofs/WriterDirty) that a finalize failing anywhere leaves the writer dirty, so the retry rewrites both headers",
@@ -396,13 +396,13 @@ LEVEL_TEXT_ADDENDA = {
     "C05": "; per-shape and header boxes of the raw-bit cases by the numeric order of F64Bits; fault runs: a write that failed before emitting a byte must not count for the header box; UNBOUNDED: TLAPS proves "
            "(spec/proofs/WriterBox, 135 obligations) that for any number of shapes the incrementally grown range is exactly the "
            "least low end / greatest high end of the shapes written and is unset exactly when none was",
-    "C07": "; well-formed files with degenerate geometry (identical / zero / collinear / NaN / infinite vertices) from the harness's own encoder; the same inputs as files on disk through ShapeReader::from_path and read_shapes",
+    "C07": "; runs of 5 000 and 40 000 null records; every input is exercised on a thread with a 512 KiB stack; well-formed files with degenerate geometry (identical / zero / collinear / NaN / infinite vertices) from the harness's own encoder; the same inputs as files on disk through ShapeReader::from_path and read_shapes",
     "C17": "; by-path opens and reads are measured as well",
     "C08": "; pairs read as a caller-defined row type that refuses one row (the iteration stays aligned); 1 100 pairs in one file (beyond any pre-allocation cap), in memory and by path; file names with upper-case extension and dotted stems",
-    "C09": "; Z profiles (all Z infinite) under concretisations whose extreme Z/M ids are the infinities; UNBOUNDED: TLAPS proves (spec/proofs/WriterDirty, 29 obligations) the dirty-flag protocol for any history: a clean "
+    "C09": "; histories may end in the consuming bulk write of an empty container; Z profiles (all Z infinite) under concretisations whose extreme Z/M ids are the infinities; UNBOUNDED: TLAPS proves (spec/proofs/WriterDirty, 29 obligations) the dirty-flag protocol for any history: a clean "
            "writer's headers are current, so the silent finalize / drop is safe, and io = dirty; histories may end with the writer going out of scope during the unwinding of a caller's panic; histories that reach 255/256/257/512 uncommitted records",
-    "C10": "; refused CONSUMING bulk writes (write_shapes of another type) followed by the drop inside the call; refused writes after 255/256/257/512 uncommitted records",
-    "C14": "; records at word offsets around 2^30 and up to 2^31 - 4000 in a sparse 4 GiB source; every layout also as a .shp/.shx pair on disk (from_path iteration and random access, read_shapes, read_shapes_as); an index of 1 500 entries",
+    "C10": "; a .shp approaching 2 GiB (into a counting sink): a shape of another type is still refused for its type; refused CONSUMING bulk writes (write_shapes of another type) followed by the drop inside the call; refused writes after 255/256/257/512 uncommitted records",
+    "C14": "; every layout also through sources that return a few bytes per read call; records at word offsets around 2^30 and up to 2^31 - 4000 in a sparse 4 GiB source; every layout also as a .shp/.shx pair on disk (from_path iteration and random access, read_shapes, read_shapes_as); an index of 1 500 entries",
     "C16": "; ends that differ only in the sign of a zero (+0.0 / -0.0) are closed; a constructor that does not return is reported as a hang; one trace file concretises X/Y as neighbouring doubles (ends one or two ulps apart are open)",
     "C18": "; in fault runs every write_shape that returned Ok must have emitted exactly one record frame announcing that shape's size",
     "C19": "; routes: .shp header, .shx header, generic record, generic two-word record, typed record, typed two-word record",
